@@ -140,7 +140,7 @@ class Run:
             self.register_agents("after")
             try:
                 await self.run_ops("root", self.p["root"])
-            except Boom as e:
+            except (Boom, TimeoutError) as e:
                 root_exc = e
             except BaseExceptionGroup as e:
                 root_exc = e
@@ -425,6 +425,20 @@ class Run:
                 return
             elif kind == "scope":
                 await self.run_scope(tid, op, ctx)
+            elif kind == "tscope":
+                # ["tscope", sid, helper, value, shield, body]; helper in move_on_after /
+                # move_on_at / fail_after / fail_at (value = delay resp. offset from now)
+                await self.run_scope(tid, ["scope", op[1], op[4], op[3], op[5]], ctx, helper=op[2])
+            elif kind == "probe":
+                got = self.anyio.current_effective_deadline()
+                want = self.sh.effective_deadline(tid)
+                self.window("effective_deadline_probed")
+                if got != want and self.recent_change(self.sh.top(tid)):
+                    self.window("tie_tolerated:probe_during_inflight_change")
+                elif got != want:
+                    self.V("C06", "current_effective_deadline-wrong",
+                           {"tid": tid, "got": got, "expected": want, "time": self.loop.time(),
+                            "chain": self.chain_of(self.sh.top(tid))})  # fmt: skip
             elif kind == "group":
                 await self.run_group(tid, op, ctx)
             elif kind == "spawn":
@@ -573,11 +587,15 @@ class Run:
                            {"tid": tid, "op": rec.kind, "latency_cycles": lat})  # fmt: skip
 
             cause = self.cause_of(tid)
+            # delivery costs loop cycles, never virtual time: an operation that was already
+            # in progress is interrupted at the very instant its scope became cancelled
+            if rec.time <= since[2] and t != since[2] and eff_now:
+                self.V("C06" if cause == "deadline" else "C03", "interrupted-at-wrong-time",
+                       {"tid": tid, "op": rec.kind, "at": t, "cancelled_at": since[2],
+                        "cause": cause})  # fmt: skip
+
             if cause == "deadline":
-                # C06: an interruption by a deadline happens exactly at the deadline
-                if rec.time <= since[2] and t != since[2]:
-                    self.V("C06", "interrupted-at-wrong-time",
-                           {"tid": tid, "op": rec.kind, "at": t, "deadline_reached_at": since[2]})  # fmt: skip
+                self.nontrivial.add("interrupted-by-deadline")
 
         self.window("op_interrupted:" + rec.kind)
 
@@ -645,6 +663,9 @@ class Run:
                 self.V("C03", "completed-normally-in-cancelled-scope",
                        {"tid": tid, "op": rec.kind, "started_cycle": rec.cycle,
                         "cancelled_since_cycle": since_start[1], "cycle": cyc})  # fmt: skip
+                if self.cause_of(tid) == "deadline":
+                    self.V("C06", "deadline-missed:operation-completed-after-expiry",
+                           {"tid": tid, "op": rec.kind, "time": t})  # fmt: skip
                 if self.cause_of(tid) in ("member-failed", "body-failed"):
                     self.V("C02", "remaining-task-not-cancelled-after-failure",
                            {"tid": tid, "op": rec.kind, "cause": self.cause_of(tid)})  # fmt: skip
@@ -657,6 +678,9 @@ class Run:
             if since[2] < t and since[2] >= rec.time:
                 self.V("C03", "sleep-not-interrupted",
                        {"tid": tid, "slept_until": t, "cancelled_at": since[2]})  # fmt: skip
+                if self.cause_of(tid) == "deadline":
+                    self.V("C06", "deadline-missed:sleep-not-interrupted",
+                           {"tid": tid, "slept_until": t, "deadline_reached_at": since[2]})  # fmt: skip
             elif since[2] == t:
                 self.window("tie_tolerated:sleep_ended_at_cancel_instant")
 
@@ -664,7 +688,8 @@ class Run:
             self.window("tie_tolerated:wait_completed_after_cancel")
 
     # ------------------------------------------------------------------ scopes
-    async def run_scope(self, tid: Any, op: list, ctx: dict | None) -> None:
+    async def run_scope(self, tid: Any, op: list, ctx: dict | None, helper: str | None = None) -> None:
+        import anyio
         from anyio import CancelScope
 
         _, sid, shield, drel, body = op
@@ -674,7 +699,19 @@ class Run:
         n.shield, n.deadline = shield, deadline
         sc = self.scopes.get(sid)
         pre_cancelled = False
-        if sc is None:
+        cm = None
+        if helper is not None:
+            if helper == "move_on_after":
+                cm = anyio.move_on_after(drel, shield=shield)
+            elif helper == "move_on_at":
+                cm = anyio.move_on_at(None if drel is None else t0 + drel, shield=shield)
+            elif helper == "fail_after":
+                cm = anyio.fail_after(drel, shield=shield)
+            else:
+                cm = anyio.fail_at(None if drel is None else t0 + drel, shield=shield)
+
+            self.window("timeout_helper:" + helper)
+        elif sc is None:
             sc = CancelScope(shield=shield, deadline=deadline)
             self.scopes[sid] = sc
         else:
@@ -687,7 +724,9 @@ class Run:
         propagated = True
         self.ev(tid, "scope-enter", sid)
         try:
-            with sc:
+            with (cm if cm is not None else sc) as entered:
+                sc = entered
+                self.scopes[sid] = sc
                 self.sh.enter(tid, n)
                 try:
                     await self.run_ops(tid, body, ctx)
@@ -702,15 +741,57 @@ class Run:
 
             propagated = False
         except BaseException as e2:
+            e2 = self.judge_timeout_helper(tid, sid, sc, n, exc, e2, expect_absorb, helper)
             self.judge_scope_exit(tid, sid, sc, n, exc, e2, expect_absorb, cancelling_before)
             raise
         else:
+            self.judge_timeout_helper(tid, sid, sc, n, exc, None, expect_absorb, helper)
             self.judge_scope_exit(tid, sid, sc, n, exc, None, expect_absorb, cancelling_before)
         finally:
             self.exited_scopes.append((sc, sid, self.cyc()))
             del exc
 
         del propagated, pre_cancelled
+
+    def judge_timeout_helper(self, tid, sid, sc, n: Node, exc, out_exc, expect_absorb,  # noqa: ANN001
+                             helper):  # noqa: ANN201  # fmt: skip
+        """C06: fail_after/fail_at raise TimeoutError exactly when their own deadline
+        interrupted the block; move_on_* set cancelled_caught exactly in that case (the
+        latter is the generic absorb rule).  Returns the exception to hand to the generic
+        exit oracle (a TimeoutError raised by the helper stands for "absorbed")."""
+        if helper is None:
+            return out_exc
+
+        carried_cancel = any(isinstance(x, asyncio.CancelledError) for x in flatten(exc))
+        fired = n.cancelled and n.cancel_cause == "deadline"
+        now = self.loop.time()
+        only_cancel = carried_cancel and all(
+            isinstance(x, asyncio.CancelledError) for x in flatten(exc)
+        )
+        # (if another exception accompanies the cancellation, that exception leaves the
+        # block and the helper never gets to raise TimeoutError)
+        expect_timeout = (
+            helper.startswith("fail") and only_cancel and expect_absorb and now >= n.deadline
+        )
+        got_timeout = isinstance(out_exc, TimeoutError) and not isinstance(exc, TimeoutError)
+        if helper.startswith("fail"):
+            self.window("fail_helper_exit")
+            if got_timeout != expect_timeout:
+                if self.recent_change(n):
+                    self.window("tie_tolerated:absorb_decision_during_inflight_change")
+                else:
+                    self.V("C06", "TimeoutError-differs-from-reference",
+                           {"sid": sid, "helper": helper, "raised_TimeoutError": got_timeout,
+                            "expected": expect_timeout, "deadline": n.deadline, "now": now,
+                            "fired": fired})  # fmt: skip
+
+            if got_timeout:
+                self.nontrivial.add("timeout-raised")
+                return None  # for the generic oracle: the cancellation was absorbed
+        elif carried_cancel and expect_absorb and fired:
+            self.nontrivial.add("moved-on")
+
+        return out_exc
 
     def judge_scope_exit(self, tid, sid, sc, n: Node, exc, out_exc, expect_absorb,  # noqa: ANN001
                          cancelling_before) -> None:  # fmt: skip
@@ -1345,7 +1426,7 @@ def execute(program: dict) -> dict:
     r = Run(program)
     info: dict = {}
     try:
-        run(r.main, config=program["cfg"], info=info, cycle_budget=program.get("budget", 20000))
+        run(r.main, config=program["cfg"], info=info, cycle_budget=program.get("budget", 4000))
     except Deadlock:
         blocked = r.snap.get("blocked", {})
         culprits = {str(t): v for t, v in blocked.items() if v[2]}
